@@ -9,7 +9,7 @@ from tv.ggen import G, Deriver, mutate
 def dump_tx(v, depth=0):
     cls = v.__class__
     if hasattr(cls, '_tx_attrs') and not isinstance(v, (str, int, float, bool)):
-        if depth > 60:
+        if depth > 600:
             return ('deep',)
         items = []
         for k, a in cls._tx_attrs.items():
